@@ -382,6 +382,39 @@ func ssoBuild(p ssoP) (*world.World, *http.Request, *ssoTruth) {
 			o.ACSURL = acs[0].Location + ".evil.example/acs"
 			t.ForeignURLs = append(t.ForeignURLs, o.ACSURL)
 		}
+	case "reg-pct", "reg-pct-slash", "reg-userinfo", "reg-fragment", "reg-upper-host-port", "reg-empty-query", "reg-trailing-dot", "reg-padded", "reg-dot-segment":
+		// another SPELLING of a registered location (equivalent for some URL comparison or other): still a string from the message,
+		// never the registered one
+		if len(acs) > 0 {
+			loc := acs[len(acs)-1].Location
+			const origin = "https://sp-a.example/acs/"
+			if strings.HasPrefix(loc, origin) {
+				rest := loc[len(origin):]
+				switch p.ACSURL {
+				case "reg-pct":
+					o.ACSURL = "https://sp-a.example/%61cs/" + rest
+				case "reg-pct-slash":
+					o.ACSURL = "https://sp-a.example/acs%2F" + rest
+				case "reg-userinfo":
+					o.ACSURL = "https://x:y@sp-a.example/acs/" + rest
+				case "reg-fragment":
+					o.ACSURL = loc + "#frag"
+				case "reg-upper-host-port":
+					o.ACSURL = "HTTPS://SP-A.EXAMPLE:443/acs/" + rest
+				case "reg-empty-query":
+					o.ACSURL = loc + "?"
+				case "reg-trailing-dot":
+					o.ACSURL = "https://sp-a.example./acs/" + rest
+				case "reg-padded":
+					o.ACSURL = " " + loc + "\n"
+				case "reg-dot-segment":
+					o.ACSURL = "https://sp-a.example/x/../acs/./" + rest
+				}
+				if strings.TrimSpace(o.ACSURL) != loc {
+					t.ForeignURLs = append(t.ForeignURLs, strings.TrimSpace(o.ACSURL))
+				}
+			}
+		}
 	}
 	o.ACSIndex = p.ACSIdx
 	if p.Optional == "all" {
@@ -654,7 +687,7 @@ func ssoBuild(p ssoP) (*world.World, *http.Request, *ssoTruth) {
 	if p.SPCert == "none" && t.Required {
 		t.Conformant = false
 	}
-	if p.Persist != "" || p.Extra != "" || p.ACSURL == "foreign" || p.ACSURL == "prefix" || p.ProtoB == "junk" {
+	if p.Persist != "" || p.Extra != "" || (p.ACSURL != "" && p.ACSURL != "registered") || p.ProtoB == "junk" {
 		t.Conformant = false
 	}
 	if len(acs) == 0 {
